@@ -1094,3 +1094,377 @@ Proof.
     split. cbn [lineno with_fd]. congruence. cbn [next_id with_fd]. lia.
   - (* EComp *) cbn in Hs. discriminate.
 Qed.
+
+(* ---------- statements without import (any level) ---------- *)
+Definition mdyn (Lf : list lvl) (bs Mdyn : list (name * bsrc)) : list (name * bsrc) := if is_nil Lf then rev bs ++ Mdyn else Mdyn.
+Definition mbot (Lf : list lvl) (bs : list (name * bsrc)) (Mb : frame) : frame := if is_nil Lf then bind_all bs Mb else Mb.
+Lemma mdyn_nil : forall Lf M, mdyn Lf [] M = M. Proof. intros [|? ?] M; reflexivity. Qed.
+Lemma mbot_nil : forall Lf M, mbot Lf [] M = M. Proof. intros [|? ?] M; reflexivity. Qed.
+Lemma mdyn_app : forall Lf a b M, mdyn Lf (a ++ b) M = mdyn Lf b (mdyn Lf a M).
+Proof. intros [|? ?] a b M; cbn. rewrite rev_app_distr, app_assoc. reflexivity. reflexivity. Qed.
+Lemma mbot_app : forall Lf a b M, mbot Lf (a ++ b) M = mbot Lf b (mbot Lf a M).
+Proof. intros [|? ?] a b M; cbn. apply bind_all_app. reflexivity. Qed.
+
+Definition PostS3 (exp : expmap) (l : lvl) (L' : list lvl) (acc : list name) (accs : list (list name)) (ex : list nat)
+                  (s : st) (e : env) (tr : list rd) (Lf : list lvl) (Mdyn : list (name * bsrc)) (Mb : frame)
+                  (s' : st) (e' : env) (rds : list rd) (bs : list (name * bsrc)) : Prop :=
+  exists exp', ext (next_id s) exp exp' /\
+    Inv3 exp' l L' (acc ++ map fst bs) accs ex s' e' (tr ++ rds) Lf (mdyn Lf bs Mdyn) (mbot Lf bs Mb) /\
+    next_id s <= next_id s'.
+
+Lemma PostS3_refl : forall exp l L' acc accs ex s e tr Lf Mdyn Mb,
+  Inv3 exp l L' acc accs ex s e tr Lf Mdyn Mb -> PostS3 exp l L' acc accs ex s e tr Lf Mdyn Mb s e [] [].
+Proof. intros. exists exp. split. apply ext_refl. cbn [map]. rewrite !app_nil_r, mdyn_nil, mbot_nil. auto. Qed.
+
+Lemma PostS3_seq : forall exp l L' acc accs ex s e tr Lf Mdyn Mb s1 e1 r1 b1 s2 e2 r2 b2,
+  PostS3 exp l L' acc accs ex s e tr Lf Mdyn Mb s1 e1 r1 b1 ->
+  (forall exp1, Inv3 exp1 l L' (acc ++ map fst b1) accs ex s1 e1 (tr ++ r1) Lf (mdyn Lf b1 Mdyn) (mbot Lf b1 Mb) ->
+                PostS3 exp1 l L' (acc ++ map fst b1) accs ex s1 e1 (tr ++ r1) Lf (mdyn Lf b1 Mdyn) (mbot Lf b1 Mb) s2 e2 r2 b2) ->
+  PostS3 exp l L' acc accs ex s e tr Lf Mdyn Mb s2 e2 (r1 ++ r2) (b1 ++ b2).
+Proof.
+  intros exp l L' acc accs ex s e tr Lf Mdyn Mb s1 e1 r1 b1 s2 e2 r2 b2 (exp1 & X1 & I1 & N1) H2.
+  destruct (H2 exp1 I1) as (exp2 & X2 & I2 & N2).
+  exists exp2. split. eapply ext_trans; [exact N1|exact X1|exact X2].
+  rewrite map_app, mdyn_app, mbot_app. split. rewrite <- !app_assoc in I2. exact I2. lia.
+Qed.
+
+Lemma Post3_S3 : forall exp l L' acc accs ex s e tr Lf Mdyn Mb s' rds,
+  Post3 exp l L' acc accs ex s e tr Lf Mdyn Mb s' rds -> PostS3 exp l L' acc accs ex s e tr Lf Mdyn Mb s' e rds [].
+Proof.
+  intros exp l L' acc accs ex s e tr Lf Mdyn Mb s' rds (exp' & X & I' & _ & N). exists exp'. cbn [map].
+  rewrite app_nil_r, mdyn_nil, mbot_nil. auto.
+Qed.
+
+Lemma expr_ln3 : forall x ln exp l L' acc accs ex s e tr Lf Mdyn Mb, s2_expr x = true ->
+  Inv3 exp l L' acc accs ex s e tr Lf Mdyn Mb ->
+  let s' := vexpr true x (stack_of (l :: L')) (with_ln s ln) in
+  PostS3 exp l L' acc accs ex s e tr Lf Mdyn Mb s' e (sem_expr ln e x) [] /\ lineno s' = ln.
+Proof.
+  intros x ln exp l L' acc accs ex s e tr Lf Mdyn Mb Hx HI. cbv zeta.
+  pose proof (expr_u3 x Hx _ _ _ _ _ _ _ _ _ _ _ _ (Inv3_with_ln _ _ _ _ _ _ _ _ _ _ _ _ ln HI)) as P.
+  split. apply Post3_S3 in P. exact P. destruct P as (? & _ & _ & E & _). exact E.
+Qed.
+Lemma expr_cur3 : forall x exp l L' acc accs ex s e tr Lf Mdyn Mb, s2_expr x = true ->
+  Inv3 exp l L' acc accs ex s e tr Lf Mdyn Mb ->
+  let s' := vexpr true x (stack_of (l :: L')) s in
+  PostS3 exp l L' acc accs ex s e tr Lf Mdyn Mb s' e (sem_expr (lineno s) e x) [] /\ lineno s' = lineno s.
+Proof.
+  intros x exp l L' acc accs ex s e tr Lf Mdyn Mb Hx HI. cbv zeta.
+  pose proof (expr_u3 x Hx _ _ _ _ _ _ _ _ _ _ _ _ HI) as P.
+  split. apply Post3_S3 in P. exact P. destruct P as (? & _ & _ & E & _). exact E.
+Qed.
+
+(* a list of plain-name bindings *)
+Lemma binds_u3 : forall names exp l L' acc accs ex s e tr Lf Mdyn Mb,
+  Inv3 exp l L' acc accs ex s e tr Lf Mdyn Mb -> Forall (fun n => n <> n_star) names -> incl names (l_B l) ->
+  (Lf = [] -> incl (others names) BS) ->
+  let s' := fold_left (fun s n => store true s (stack_of (l :: L')) [n] Plain) names s in
+  Inv3 exp l L' (acc ++ names) accs ex s' (ebind_all (others names) e) tr Lf (mdyn Lf (others names) Mdyn) (mbot Lf (others names) Mb) /\
+  next_id s' = next_id s /\ lineno s' = lineno s.
+Proof.
+  induction names as [|n names IH]; intros exp l L' acc accs ex s e tr Lf Mdyn Mb HI Hns Hin HBS; cbn [fold_left].
+  - cbn [others map]. rewrite app_nil_r, mdyn_nil, mbot_nil, ebind_all_nil. auto.
+    eapply Inv2_nonempty. apply (v_f _ _ _ _ _ _ _ _ _ _ _ _ HI).
+  - inversion Hns as [|? ? Hn Hns']; subst.
+    destruct (store_name_u3 _ _ _ _ _ _ _ _ _ _ _ _ n HI Hn (Hin n (or_introl eq_refl))) as (I1 & E1 & E2).
+    { intro E. apply (HBS E). left. reflexivity. }
+    cbv zeta in I1, E1, E2.
+    destruct (IH _ _ _ _ _ _ _ _ _ _ _ _ I1 Hns') as (I2 & E3 & E4).
+    { intros y Hy. apply Hin. right. exact Hy. } { intros E y Hy. apply (HBS E). right. exact Hy. }
+    cbv zeta in I2, E3, E4.
+    change (others (n :: names)) with ([(n, BOther)] ++ others names).
+    rewrite ebind_all_app, mdyn_app, mbot_app. rewrite <- app_assoc in I2. cbn [app] in I2.
+    split; [|split; congruence].
+    destruct Lf; exact I2.
+Qed.
+
+Lemma PostS3_bind : forall exp l L' acc accs ex s e tr Lf Mdyn Mb s' e' bs,
+  Inv3 exp l L' (acc ++ map fst bs) accs ex s' e' tr Lf (mdyn Lf bs Mdyn) (mbot Lf bs Mb) -> next_id s' = next_id s ->
+  PostS3 exp l L' acc accs ex s e tr Lf Mdyn Mb s' e' [] bs.
+Proof. intros. exists exp. split. apply ext_refl. rewrite app_nil_r. split. auto. lia. Qed.
+
+Lemma PostS3_then_bind : forall exp l L' acc accs ex s e tr Lf Mdyn Mb s1 e1 r1 b1 s2 e2 b2,
+  PostS3 exp l L' acc accs ex s e tr Lf Mdyn Mb s1 e1 r1 b1 ->
+  (forall exp1, Inv3 exp1 l L' (acc ++ map fst b1) accs ex s1 e1 (tr ++ r1) Lf (mdyn Lf b1 Mdyn) (mbot Lf b1 Mb) ->
+     Inv3 exp1 l L' ((acc ++ map fst b1) ++ map fst b2) accs ex s2 e2 (tr ++ r1) Lf
+          (mdyn Lf b2 (mdyn Lf b1 Mdyn)) (mbot Lf b2 (mbot Lf b1 Mb)) /\ next_id s2 = next_id s1) ->
+  PostS3 exp l L' acc accs ex s e tr Lf Mdyn Mb s2 e2 r1 (b1 ++ b2).
+Proof.
+  intros. rewrite <- (app_nil_r r1). eapply PostS3_seq. exact H. intros exp1 I1. destruct (H0 exp1 I1). apply PostS3_bind; auto.
+Qed.
+
+Lemma target_u3 : forall t exp l L' acc accs ex s e tr Lf Mdyn Mb,
+  Inv3 exp l L' acc accs ex s e tr Lf Mdyn Mb -> s1_target t = true -> incl (target_names t) (l_B l) ->
+  (Lf = [] -> incl (others (target_names t)) BS) ->
+  let s' := vtarget true t (stack_of (l :: L')) s in
+  Inv3 exp l L' (acc ++ target_names t) accs ex s' (ebind_all (others (target_names t)) e) tr Lf
+       (mdyn Lf (others (target_names t)) Mdyn) (mbot Lf (others (target_names t)) Mb) /\
+  next_id s' = next_id s /\ lineno s' = lineno s.
+Proof.
+  intros t exp l L' acc accs ex s e tr Lf Mdyn Mb HI Ht Hin HBS. cbv zeta. rewrite vtarget_u1 by exact Ht.
+  apply binds_u3; auto. apply target_names_not_star. exact Ht.
+Qed.
+
+Lemma targets_u3 : forall ts exp l L' acc accs ex s e tr Lf Mdyn Mb,
+  Inv3 exp l L' acc accs ex s e tr Lf Mdyn Mb -> forallb s1_target ts = true -> incl (flat_map target_names ts) (l_B l) ->
+  (Lf = [] -> incl (others (flat_map target_names ts)) BS) ->
+  let s' := fold_left (fun s t => vtarget true t (stack_of (l :: L')) s) ts s in
+  Inv3 exp l L' (acc ++ flat_map target_names ts) accs ex s' (ebind_all (others (flat_map target_names ts)) e) tr Lf
+       (mdyn Lf (others (flat_map target_names ts)) Mdyn) (mbot Lf (others (flat_map target_names ts)) Mb) /\
+  next_id s' = next_id s /\ lineno s' = lineno s.
+Proof.
+  induction ts as [|t ts IH]; intros exp l L' acc accs ex s e tr Lf Mdyn Mb HI Hs Hin HBS; cbn [flat_map fold_left] in *.
+  - cbn [others map]. rewrite app_nil_r, mdyn_nil, mbot_nil, ebind_all_nil. auto.
+    eapply Inv2_nonempty. apply (v_f _ _ _ _ _ _ _ _ _ _ _ _ HI).
+  - cbn in Hs. apply andb_true_iff in Hs as [H1 H2].
+    destruct (target_u3 t _ _ _ _ _ _ _ _ _ _ _ _ HI H1) as (I1 & N1 & Ln1).
+    { intros y Hy. apply Hin. apply in_app_iff. auto. }
+    { intros E y Hy. apply (HBS E). rewrite others_app. apply in_app_iff. auto. }
+    cbv zeta in I1, N1, Ln1.
+    destruct (IH _ _ _ _ _ _ _ _ _ _ _ _ I1 H2) as (I2 & N2 & Ln2).
+    { intros y Hy. apply Hin. apply in_app_iff. auto. }
+    { intros E y Hy. apply (HBS E). rewrite others_app. apply in_app_iff. auto. }
+    cbv zeta in I2, N2, Ln2.
+    rewrite others_app, ebind_all_app, mdyn_app, mbot_app, app_assoc. split. exact I2. split; congruence.
+Qed.
+
+Lemma map_fst_others' : forall l, map fst (others l) = l.
+Proof. exact map_fst_others. Qed.
+
+Lemma with_items_u3 : forall ln items exp l L' acc accs ex s e tr Lf Mdyn Mb r,
+  Inv3 exp l L' acc accs ex s e tr Lf Mdyn Mb -> lineno s = ln -> forallb s2_with_item items = true ->
+  incl (flat_map wnames items) (l_B l) -> (Lf = [] -> incl (others (flat_map wnames items)) BS) ->
+  let s' := fold_left (with_item_step true (stack_of (l :: L'))) items s in
+  exists e' r', fold_left (sem_with_step ln) items (e, r) = (e', r ++ r') /\
+    PostS3 exp l L' acc accs ex s e tr Lf Mdyn Mb s' e' r' (others (flat_map wnames items)).
+Proof.
+  intros ln items. induction items as [|[x ot] items IH]; intros exp l L' acc accs ex s e tr Lf Mdyn Mb r HI Hln Hs Hin HBS;
+    cbn [flat_map fold_left] in *.
+  - exists e, []. rewrite app_nil_r. split. reflexivity. apply PostS3_refl. exact HI.
+  - cbn in Hs. apply andb_true_iff in Hs as [H12 H3]. unfold s2_with_item in H12. cbn [fst snd] in H12.
+    apply andb_true_iff in H12 as [H1 H2].
+    unfold with_item_step at 2. cbn [fst snd]. unfold sem_with_step at 2. cbn [fst snd].
+    destruct (expr_cur3 x _ _ _ _ _ _ _ _ _ _ _ _ H1 HI) as (P1 & Ln1). cbv zeta in P1, Ln1. rewrite Hln in P1.
+    change (wnames (x, ot)) with (match ot with Some t => target_names t | None => [] end) in *.
+    rewrite others_app in *.
+    destruct ot as [t|].
+    + set (s1 := vexpr true x (stack_of (l :: L')) s) in *.
+      assert (Hin1 : incl (target_names t) (l_B l)) by (intros y Hy; apply Hin; apply in_app_iff; auto).
+      assert (HBS1 : Lf = [] -> incl (others (target_names t)) BS) by (intros E y Hy; apply (HBS E); apply in_app_iff; auto).
+      assert (Et : exec_target_env ln e t = (ebind_all (others (target_names t)) e, [])).
+      { unfold exec_target_env. rewrite exec_target_s1 by exact H2. reflexivity. }
+      rewrite Et.
+      assert (P2 : PostS3 exp l L' acc accs ex s e tr Lf Mdyn Mb (vtarget true t (stack_of (l :: L')) s1)
+                          (ebind_all (others (target_names t)) e) (sem_expr ln e x) ([] ++ others (target_names t))).
+      { eapply PostS3_then_bind. exact P1. intros exp1 I1.
+        destruct (target_u3 t _ _ _ _ _ _ _ _ _ _ _ _ I1 H2 Hin1 HBS1) as (I2 & N2 & _). cbv zeta in I2, N2.
+        rewrite map_fst_others. split. exact I2. exact N2. }
+      cbn [app] in P2.
+      assert (Ln2 : lineno (vtarget true t (stack_of (l :: L')) s1) = ln).
+      { destruct P1 as (expa & _ & Ia & _). cbn [map] in Ia. rewrite app_nil_r, mdyn_nil, mbot_nil in Ia.
+        destruct (target_u3 t _ _ _ _ _ _ _ _ _ _ _ _ Ia H2 Hin1 HBS1) as (_ & _ & Lnx). cbv zeta in Lnx. rewrite Lnx, Ln1. exact Hln. }
+      destruct P2 as (exp2 & X2 & I2 & N2).
+      destruct (IH _ _ _ _ _ _ _ _ _ _ _ _ (r ++ sem_expr ln e x ++ []) I2 Ln2 H3) as (e' & r' & E' & P').
+      { intros y Hy. apply Hin. apply in_app_iff. auto. }
+      { intros E y Hy. apply (HBS E). apply in_app_iff. auto. }
+      exists e', ((sem_expr ln e x ++ []) ++ r'). rewrite E'. split. rewrite !app_assoc. reflexivity.
+      rewrite app_nil_r.
+      eapply PostS3_seq. exists exp2. split. exact X2. split. exact I2. exact N2. intros exp3 I3.
+      destruct (IH _ _ _ _ _ _ _ _ _ _ _ _ (r ++ sem_expr ln e x ++ []) I3 Ln2 H3) as (e'' & r'' & E'' & P'').
+      { intros y Hy. apply Hin. apply in_app_iff. auto. }
+      { intros E y Hy. apply (HBS E). apply in_app_iff. auto. }
+      rewrite E' in E''. injection E'' as <- Er. apply app_inv_head in Er. subst r''. exact P''.
+    + cbn [others map app] in *.
+      assert (Ln2 : lineno (vexpr true x (stack_of (l :: L')) s) = ln) by congruence.
+      destruct P1 as (exp2 & X2 & I2 & N2). pose proof I2 as I2'. cbn [map] in I2'. rewrite app_nil_r, mdyn_nil, mbot_nil in I2'.
+      destruct (IH _ _ _ _ _ _ _ _ _ _ _ _ (r ++ sem_expr ln e x) I2' Ln2 H3 Hin HBS) as (e' & r' & E' & P').
+      exists e', (sem_expr ln e x ++ r'). rewrite E'. split. rewrite !app_assoc. reflexivity.
+      change (others (flat_map wnames items)) with ([] ++ others (flat_map wnames items)).
+      eapply PostS3_seq. exists exp2. split. exact X2. split. exact I2. exact N2. intros exp3 I3.
+      cbn [map] in I3 |- *. rewrite app_nil_r, mdyn_nil, mbot_nil in *.
+      destruct (IH _ _ _ _ _ _ _ _ _ _ _ _ (r ++ sem_expr ln e x) I3 Ln2 H3 Hin HBS) as (e'' & r'' & E'' & P'').
+      rewrite E' in E''. injection E'' as <- Er. apply app_inv_head in Er. subst r''. exact P''.
+Qed.
+
+Lemma decos_u3 : forall decos exp l L' acc accs ex s e tr Lf Mdyn Mb,
+  Inv3 exp l L' acc accs ex s e tr Lf Mdyn Mb -> forallb (fun d : nat * expr => s2_expr (snd d)) decos = true ->
+  PostS3 exp l L' acc accs ex s e tr Lf Mdyn Mb (vdecos true decos (stack_of (l :: L')) s) e (sem_decos e decos) [].
+Proof.
+  induction decos as [|[dl d] decos IH]; intros exp l L' acc accs ex s e tr Lf Mdyn Mb HI Hs.
+  - apply PostS3_refl. exact HI.
+  - cbn in Hs. apply andb_true_iff in Hs as [H1 H2]. unfold vdecos, sem_decos. cbn [fold_left flat_map fst snd].
+    change (@nil (name * bsrc)) with (@nil (name * bsrc) ++ []).
+    eapply PostS3_seq. apply (expr_ln3 d dl); eauto. intros exp1 I1. cbn [map] in I1 |- *.
+    rewrite app_nil_r, mdyn_nil, mbot_nil in *. apply IH; auto.
+Qed.
+
+Lemma Inv3_perm : forall exp l L' acc accs ex s e tr tr' Lf Mdyn Mb, (forall x, In x tr <-> In x tr') ->
+  Inv3 exp l L' acc accs ex s e tr Lf Mdyn Mb -> Inv3 exp l L' acc accs ex s e tr' Lf Mdyn Mb.
+Proof.
+  intros. destruct H0. constructor; auto. eapply Inv2_perm; eauto. eapply UI_perm; [|eauto]. intros r Hr. apply H. exact Hr.
+Qed.
+
+(* statements without import bind nothing through an import *)
+Lemma noimp_block_other : forall l, Forall (fun x => noimp_stmt x = true -> forall y b, In (y, b) (bsrcs false x) -> b = BOther) l ->
+  forallb noimp_stmt l = true -> forall y b, In (y, b) (bsrcs_block false l) -> b = BOther.
+Proof.
+  induction l as [|x l IH]; intros HF Hs y b Hin. contradiction.
+  inversion HF as [|? ? Hx HF']; subst. cbn in Hs. apply andb_true_iff in Hs as [H1 H2].
+  unfold bsrcs_block in Hin. cbn [flat_map] in Hin. apply in_app_iff in Hin as [Hin|Hin]. eapply Hx; eauto. eapply IH; eauto.
+Qed.
+Lemma in_others : forall y b l, In (y, b) (others l) -> b = BOther.
+Proof. intros y b l H. unfold others in H. apply in_map_iff in H as (z & E & _). congruence. Qed.
+Lemma noimp_other : forall x, noimp_stmt x = true -> forall y b, In (y, b) (bsrcs false x) -> b = BOther.
+Proof.
+  induction x using stmt_ind'; intros Hn y bb Hin; try discriminate; cbn [bsrcs noimp_stmt] in *; try contradiction.
+  - eapply in_others; eauto.
+  - destruct a; [|contradiction]. destruct Hin as [E|[]]. congruence.
+  - destruct Hin as [E|[]]. congruence.
+  - destruct Hin as [E|[]]. congruence.
+  - destruct Hin as [E|[]]. congruence.
+  - apply andb_true_iff in Hn as [A B]. apply in_app_iff in Hin as [Hin|Hin]. eapply in_others; eauto.
+    apply in_app_iff in Hin as [Hin|Hin]. exact (noimp_block_other b H A y bb Hin). exact (noimp_block_other o H0 B y bb Hin).
+  - apply andb_true_iff in Hn as [A B]. rewrite app_nil_r in Hin. exact (noimp_block_other b H A y bb Hin).
+  - apply andb_true_iff in Hn as [A B]. rewrite app_nil_r in Hin. exact (noimp_block_other b H A y bb Hin).
+  - apply in_app_iff in Hin as [Hin|Hin]. eapply in_others; eauto. exact (noimp_block_other b H Hn y bb Hin).
+  - apply andb_true_iff in Hn as [Hn D]. apply andb_true_iff in Hn as [Hn C]. apply andb_true_iff in Hn as [A B].
+    cbn [app] in Hin. apply in_app_iff in Hin as [Hin|Hin]. exact (noimp_block_other b H A y bb Hin).
+    apply in_app_iff in Hin as [Hin|Hin]. exact (noimp_block_other o H1 C y bb Hin). exact (noimp_block_other f H2 D y bb Hin).
+Qed.
+Lemma noimp_block_other' : forall l, forallb noimp_stmt l = true -> forall y b, In (y, b) (bsrcs_block false l) -> b = BOther.
+Proof. intros l. apply noimp_block_other. apply Forall_forall. intros x _. apply noimp_other. Qed.
+
+Definition PUS (x : stmt) : Prop := s2_stmt x = true -> noimp_stmt x = true ->
+  forall exp l L' acc accs ex s e tr Lf Mdyn Mb, Inv3 exp l L' acc accs ex s e tr Lf Mdyn Mb ->
+  incl (NS x) (l_B l) -> (Lf = [] -> incl (bsrcs false x) BS) ->
+  forall e' rds, sem_stmt e x = (e', rds) ->
+  PostS3 exp l L' acc accs ex s e tr Lf Mdyn Mb (vstmt true x (stack_of (l :: L')) s) e' rds (bsrcs false x).
+Definition PUB (b : list stmt) : Prop := s2_block b = true -> forallb noimp_stmt b = true ->
+  forall exp l L' acc accs ex s e tr Lf Mdyn Mb, Inv3 exp l L' acc accs ex s e tr Lf Mdyn Mb ->
+  incl (binds_block false b) (l_B l) -> (Lf = [] -> incl (bsrcs_block false b) BS) ->
+  forall e' rds, sem_block b e = (e', rds) ->
+  PostS3 exp l L' acc accs ex s e tr Lf Mdyn Mb (vblock true b (stack_of (l :: L')) s) e' rds (bsrcs_block false b).
+
+Lemma block_u3 : forall b, Forall PUS b -> PUB b.
+Proof.
+  induction b as [|x b IH]; intros HF Hs Hn exp l L' acc accs ex s e tr Lf Mdyn Mb HI Hin HBS e' rds E.
+  - cbn in E. injection E as <- <-. apply PostS3_refl. exact HI.
+  - inversion HF as [|? ? Hx HF']; subst. cbn in Hs, Hn. apply andb_true_iff in Hs as [H1 H2]. apply andb_true_iff in Hn as [N1 N2].
+    cbn [sem_block] in E. destruct (sem_stmt e x) as [e1 r1] eqn:E1. destruct (sem_block b e1) as [e2 r2] eqn:E2.
+    injection E as <- <-.
+    unfold binds_block, bsrcs_block in *. cbn [flat_map] in *. rewrite map_app in Hin. fold (NS x) in *.
+    unfold vblock. cbn [fold_left]. eapply PostS3_seq.
+    + apply (Hx H1 N1 _ _ _ _ _ _ _ _ _ _ _ _ HI). intros y Hy. apply Hin. apply in_app_iff. auto.
+      intros E y Hy. apply (HBS E). apply in_app_iff. auto. exact E1.
+    + intros exp1 I1. apply (IH HF' H2 N2 _ _ _ _ _ _ _ _ _ _ _ _ I1). intros y Hy. apply Hin. apply in_app_iff. auto.
+      intros E y Hy. apply (HBS E). apply in_app_iff. auto. exact E2.
+Qed.
+
+Lemma all_PUE : forall es, Forall PUE es.
+Proof. intro es. apply Forall_forall. intros x _. apply expr_u3. Qed.
+
+Lemma def_u3 : forall ln nm decos ps ret body, PUB body -> PUS (SDef ln nm decos ps ret body).
+Proof.
+  intros ln nm decos ps ret body IHb Hs Hnoimp exp l L' acc accs ex s e tr Lf Mdyn Mb HI Hin HBS e' rds Esem.
+  cbn [s2_stmt noimp_stmt] in Hs, Hnoimp. rewrite s2_blk_fix in Hs. rewrite noimp_blk_fix in Hnoimp.
+  apply andb_true_iff in Hs as [Hs Hbody]. apply andb_true_iff in Hs as [Hs Hret].
+  apply andb_true_iff in Hs as [Hs Hps]. apply andb_true_iff in Hs as [Hnm Hdecos].
+  apply not_star_neq in Hnm.
+  destruct (s2_params_facts ps Hps) as [Hhdr Hpn].
+  rewrite sem_stmt_def in Esem. cbv zeta in Esem.
+  destruct (sem_block body (fun_frame (params_names ps) (bsrcs_block false body) (binds_block true body) :: finalize e))
+    as [eb r1] eqn:Eb. injection Esem as <- <-.
+  unfold NS in *. cbn [bsrcs map fst] in *.
+  rewrite vstmt_def_eq_t. cbv zeta.
+  set (stk := stack_of (l :: L')).
+  (* decorators *)
+  destruct (decos_u3 decos _ _ _ _ _ _ _ _ _ _ _ _ (Inv3_with_ln _ _ _ _ _ _ _ _ _ _ _ _ ln HI) Hdecos) as (exp0 & X0 & I0' & N0).
+  fold stk in I0', N0. cbn [map] in I0'. rewrite app_nil_r, mdyn_nil, mbot_nil in I0'.
+  set (s0 := vdecos true decos stk (with_ln s ln)) in *.
+  change (next_id (with_ln s ln)) with (next_id s) in X0, N0.
+  rewrite push_t by (eapply Inv3_sinv; eauto). set (A := next_id s0). set (s1 := snd (new_scope s0 KNormal [])).
+  cbv beta iota zeta. rewrite removelast_snoc.
+  set (P := params_names ps).
+  destruct (open_scope_u3 exp0 l L' acc accs ex s0 e _ Lf Mdyn Mb P I0') as (I1 & Nx1 & Ln1 & X1 & HAoff & HAd & HAT).
+  fold A in I1, Nx1, X1, HAoff, HAd, HAT. fold s1 in I1, Nx1, Ln1. fold stk in HAoff.
+  assert (Hcd1 : in_cd s1 = 0). { change (in_cd s1) with (in_cd (er s1)). apply sv_cd. eapply Inv3_sinv; eauto. }
+  rewrite Hcd1. change (Nat.ltb 0 0) with false. cbv iota.
+  (* header expressions, in the enclosing scope *)
+  rewrite varguments_eq_t, removelast_snoc.
+  destruct (exprs_u3 (hdr_finder ps) (all_PUE _) Hhdr _ _ _ _ _ _ _ _ _ _ _ _ (Inv3_with_ln _ _ _ _ _ _ _ _ _ _ _ _ ln I1))
+    as (exp2 & X2 & I2 & Ln2 & Nx2).
+  fold stk in I2, Ln2, Nx2. set (s2 := vexpr_list true (hdr_finder ps) stk (with_ln s1 ln)) in *.
+  change (next_id (with_ln s1 ln)) with (next_id s1) in X2, Nx2.
+  change (lineno (with_ln s1 ln)) with ln in Ln2, I2.
+  (* parameters *)
+  assert (HexpA : forall y, In y (exp2 A) <-> In y (pnames_finder ps)).
+  { intro y. rewrite X2 by lia. unfold upd. rewrite Nat.eqb_refl. symmetry. apply pnames_perm. }
+  destruct (params_close_u3 exp2 l L' acc accs ex s2 _ _ Lf Mdyn Mb A stk (pnames_finder ps) I2) as (I3 & Ln3 & Nx3); auto; try lia.
+  fold stk. set (s3 := fold_left (fun s p => store true s (stk ++ [A]) [p] Plain) (pnames_finder ps) s2) in *.
+  (* the return annotation *)
+  assert (Pret : Post3 exp2 l L' acc accs ex s3 e ((tr ++ sem_decos e decos) ++ sem_exprs ln e (hdr_finder ps)) Lf Mdyn Mb
+                       (voexpr true ret stk s3) (sem_oexpr (lineno s3) e ret)).
+  { destruct ret as [r|]; cbn [voexpr sem_oexpr s2_oexpr] in *. apply expr_u3; auto. apply Post3_refl; auto. }
+  destruct Pret as (exp4 & X4 & I4 & Ln4 & Nx4). set (s4 := voexpr true ret stk s3) in *.
+  rewrite Ln3, Ln2 in I4.
+  (* the body scope *)
+  assert (HS4 : SInv (er (with_fd s4 true))) by (rewrite er_with_fd; apply SInv_with_fd; eapply Inv3_sinv; eauto).
+  rewrite push_t by exact HS4. cbv beta iota zeta. change (next_id (with_fd s4 true)) with (next_id s4).
+  set (B := next_id s4). set (s6 := snd (new_scope (with_fd s4 true) KNormal [])).
+  assert (Hcd6 : in_cd s6 = 0).
+  { change (in_cd s6) with (in_cd (er s4)). apply sv_cd. eapply Inv3_sinv; eauto. }
+  rewrite Hcd6. change (Nat.eqb 0 0) with true. cbv iota.
+  assert (HBT : B <> T). { pose proof (T_lt _ _ _ _ _ _ _ _ _ _ _ _ I4). unfold B. lia. }
+  assert (Hno6 : forall c, dict_get (scope_dict s6 (top ((stk ++ [A]) ++ [B]))) [nm] <> Some (Chk c)).
+  { intro c. rewrite top_snoc. unfold s6. rewrite scope_dict_new_gen.
+    - change (next_id (with_fd s4 true)) with B. rewrite Nat.eqb_refl. cbn. discriminate.
+    - apply fresh_er. rewrite er_with_fd. apply (sv_fresh _ (SInv_with_fd _ _ (Inv3_sinv _ _ _ _ _ _ _ _ _ _ _ _ I4))). }
+  rewrite (store_true_noreport s6) by exact Hno6. rewrite !top_snoc.
+  set (Bn := binds_block false body).
+  set (F := fun_frame P (bsrcs_block false body) (binds_block true body)) in *.
+  destruct (fun_frame_ok A B P [nm] (bsrcs_block false body) (binds_block true body)) as (HFk & HFs & HFd).
+  { intro y. rewrite (s2_binds_all body Hbody). reflexivity. }
+  fold F in HFk, HFs, HFd. change (map fst (bsrcs_block false body)) with Bn in HFs.
+  assert (HAex : ~ In A ex).
+  { intro Hi. pose proof (i_exlt _ _ _ _ _ _ _ _ _ (v_f _ _ _ _ _ _ _ _ _ _ _ _ I0') A Hi) as Hlt. cbn [next_id er] in Hlt. unfold A in Hlt. lia. }
+  assert (HexpA4 : forall y, In y (exp4 A) <-> In y P).
+  { intro y. rewrite X4 by lia. rewrite X2 by lia. unfold upd. rewrite Nat.eqb_refl. reflexivity. }
+  destruct (enter_u3 exp4 l L' acc accs ex s4 e _ Lf Mdyn Mb A P [nm] Bn F I4)
+    as (I7 & Xe & Ln7 & Nx7); auto; try lia.
+  { right. exists nm. auto. }
+  { apply AllOther_fun_frame. apply noimp_block_other'. exact Hnoimp. }
+  { intros E y [<-|[]] li ii Hf. pose proof (once_unique BS I0 nm li ii BOther HO Hf (HBS E _ (or_introl eq_refl))). discriminate. }
+  cbv zeta in I7, Xe, Ln7, Nx7. cbv iota in I7, Ln7, Nx7. fold B s6 in I7, Xe, Ln7, Nx7.
+  set (lv := mkL [A] B P [nm] Bn) in *. set (s7 := set_in_scope s6 B [nm] Plain) in *.
+  set (exp7 := upd exp4 B ([nm] ++ Bn)) in *.
+  unfold stk at 1. rewrite stackB_eq with (P := P) (own := [nm]) (Bn := Bn). fold lv.
+  destruct (IHb Hbody Hnoimp _ _ _ _ _ _ _ _ _ _ _ _ I7 (incl_refl _)) with (e' := eb) (rds := r1) as (exp8 & X8 & I8 & N8).
+  { intro E. discriminate. } { exact Eb. }
+  cbn [app] in I8. cbn [mdyn mbot is_nil] in I8. fold Bn in I8.
+  set (s8 := vblock true body (stack_of (lv :: l :: L')) s7) in *.
+  (* leaving *)
+  rewrite (pop_plain_t T BS I0 exp8 s8 Mdyn _ B (v_u _ _ _ _ _ _ _ _ _ _ _ _ I8) HBT).
+  assert (U9 : UI T BS I0 exp8 (with_fd s8 (in_fd s4)) Mdyn
+                  ((((tr ++ sem_decos e decos) ++ sem_exprs ln e (hdr_finder ps)) ++ sem_oexpr ln e ret) ++ r1)).
+  { apply (UI_same T BS I0 exp8 s8); try reflexivity. auto. apply (v_u _ _ _ _ _ _ _ _ _ _ _ _ I8). }
+  rewrite (pop_plain_t T BS I0 exp8 _ Mdyn _ A U9 HAT).
+  rewrite (Inv3_fd _ _ _ _ _ _ _ _ _ _ _ _ I4).
+  pose proof (leave_u3 exp l L' acc accs ex s e tr Lf Mdyn Mb exp8 lv s8 _ _ _ HI I8) as I9.
+  set (s9 := with_fd s8 (negb (Nat.eqb (length (l :: L')) 1))) in *.
+  assert (I9' : Inv3 exp8 l L' acc accs ex s9 e
+                  ((((tr ++ sem_decos e decos) ++ sem_exprs ln e (hdr_finder ps)) ++ sem_oexpr ln e ret) ++ r1) Lf Mdyn Mb).
+  { apply I9. lia. }
+  destruct (store_name_u3 _ _ _ _ _ _ _ _ _ _ _ _ nm I9' Hnm (Hin nm (or_introl eq_refl))) as (I10 & N10 & _).
+  { intro E. apply (HBS E). left. reflexivity. }
+  cbv zeta in I10, N10. fold stk in I10, N10.
+  exists exp8. split.
+  { intros i Hi. rewrite (X8 i), (Xe i), (X4 i), (X2 i), (X1 i), (X0 i) by lia. reflexivity. }
+  split; [|change (next_id s9) with (next_id s8) in N10; lia].
+  cbn [map fst]. 
+  assert (Em : mdyn Lf [(nm, BOther)] Mdyn = (if is_nil Lf then (nm, BOther) :: Mdyn else Mdyn)) by (destruct Lf; reflexivity).
+  assert (Eb' : mbot Lf [(nm, BOther)] Mb = (if is_nil Lf then bind nm BOther Mb else Mb)) by (destruct Lf; reflexivity).
+  rewrite Em, Eb'.
+  eapply Inv3_perm; [|exact I10].
+  intro x. pose proof (sem_exprs_perm ln e _ _ (hdr_perm ps ret) x) as Hp.
+  rewrite sem_exprs_app, in_app_iff in Hp. rewrite sem_oexpr_eq. rewrite !in_app_iff. tauto.
+Qed.
